@@ -298,6 +298,11 @@ func runC11(cfg *vh.Config) error {
 		inputs = append(inputs, input{k.src, "covguided", k.emit})
 	}
 
+	// ---- stream 4u: the byte level (pinned): valid multi-byte and invalid UTF-8 in every literal kind and position
+	for i, s := range utf8Corpus() {
+		inputs = append(inputs, input{s, "utf8", cfg.Tier == "thorough" || i%3 == int(cfg.Seed%3)})
+	}
+
 	// ---- stream 4a: every lexer sub-automaton x every continuation x every ending (closed, newline, end of input),
 	// in several grammatical positions; all through the oracle, a sample through the model
 	{
